@@ -61,9 +61,9 @@ Proof.
     destruct (c <? 32)%N.
     + destruct (length r <? N.to_nat c + 1); auto.
       apply IH; rewrite skipn_length; lia.
-    + destruct r as [|lo r2]; auto. cbn [length] in *.
+    + destruct r as [|b1 r2]; auto. cbn [length] in *.
       destruct (c / 32 =? 7)%N.
-      * destruct r2 as [|lb r3]; auto. cbn [length] in *.
+      * destruct r2 as [|lo r3]; auto. cbn [length] in *.
         destruct (length o <? _); auto. apply IH; lia.
       * destruct (length o <? _); auto. apply IH; lia.
 Qed.
